@@ -489,6 +489,13 @@ UNION_EXTRA: Dict[str, Tuple[Sp, str]] = {
     "disc(inherited)": (disc("type", (("IA", "IA"), ("IB", "IB")), IA, IB, inherited="DBase"), INH_DISC_SRC),
     "disc(inherited,plain)": (disc("type", (("PA", "PA"), ("PB", "PB")), PA, PB, inherited="DPlain"), INH_PLAIN_SRC),
     "disc(inherited,fields)": (disc("type", (("FA", "FA"), ("FB", "FB")), FA, FB, inherited="FBase"), INH_FIELDS_SRC),
+    "disc(inherited,recursive)": (
+        disc("type", (("RLeaf", "RLeaf"), ("RBranch", "RBranch")),
+             obj("RLeaf", F("v", INT, default=V("0")), bases="RBase"),
+             obj("RBranch", F("sub", opt(ref("RBase")), default=V("None")), F("k", INT, default=V("0")), bases="RBase"),
+             inherited="RBase"),
+        '@discriminator("type")\n@dataclass\nclass RBase:\n    pass\n',
+    ),
     "list(disc)": (lst(disc("type", (("DA", "DA"), ("DB", "DB")), DA, DB)), ""),
     "tagged": (TU, TU_SRC),
 }
